@@ -1,15 +1,141 @@
-"""C09  Subtraction, division, sqrt, comparison and gadget generators are exact
+"""C09  Subtraction, division, sqrt, comparison and gadget generators are exact.
 
-P: (deductive obligations for this property are added in vlib/props/C09.py as they are built)
-B: vlib/bounded/C09.py (bounded stand-in; never counted as proved)."""
+P (all operand values, all host circuits, operand aliasing; width-bounded where a ripple loop is unrolled):
+   add_sub2, add_sub3, add_sub_two_numbers, add_subtract_with_compare, add_equal (incl. constants that do
+   not fit and negative ones), add_plus_one (outputs only when asked), add_if_then_else, add_pairwise_xor,
+   add_pairwise_if_then_else; freshness frame and WF for each.
+B: vlib/bounded/C09.py (div-mod, sqrt, larger widths, adversarial hosts)."""
+import z3
+
 from .. import env
-from .common import STD_TRUSTED, STD_ASSUME, run_bounded
+from ..pyvc.prove import Prover
+from ..pyvc.values import VList
+from .arith_common import HostGadget, val_le, b2i
+from .common import new_interp, finish_refuted, canary, STD_TRUSTED, STD_ASSUME, run_bounded
 
-LEVEL = 'exploration'
+LEVEL = 'other'
+SUB = 'cirbo/synthesis/generation/arithmetics/subtraction.py'
+EQ = 'cirbo/synthesis/generation/arithmetics/equality.py'
+GEN = 'cirbo/synthesis/generation/generation.py'
+
+
+def spec_sub2(xs, rs, st):
+    yield ('a-b', b2i(rs[0]) - 2 * b2i(rs[1]) == b2i(xs[0]) - b2i(xs[1]))
+
+
+def spec_sub3(xs, rs, st):
+    yield ('a-b-c', b2i(rs[0]) - 2 * b2i(rs[1]) == b2i(xs[0]) - b2i(xs[1]) - b2i(xs[2]))
+
+
+def spec_sub(n, m, be):
+    def f(xs, rs, st):
+        a, b = xs[:n], xs[n:n + m]
+        r = rs
+        if be:
+            a, b, r = a[::-1], b[::-1], rs[::-1]
+        yield ('(a-b) mod 2^n', val_le(r) == (val_le(a) - val_le(b)) % (2 ** n))
+        yield ('length', z3.BoolVal(len(rs) == n))
+    return f
+
+
+def spec_subcmp(n, m, be):
+    def f(xs, rs, st):
+        a, b = xs[:n], xs[n:n + m]
+        res, flag = rs[0], rs[1]
+        if be:
+            a, b, res = a[::-1], b[::-1], res[::-1]
+        yield ('low-bits (a-b) mod 2^n', val_le(res[:n]) == (val_le(a) - val_le(b)) % (2 ** n))
+        yield ('flag iff a<b', flag == (val_le(a) < val_le(b)))
+    return f
+
+
+def spec_equal(n, num):
+    def f(xs, rs, st):
+        yield ('x==num', rs[0] == (val_le(xs) == num))
+    return f
+
+
+def spec_plus_one(n, out):
+    def f(xs, rs, st):
+        yield ('(x+1) mod 2^out', val_le(rs) == (val_le(xs) + 1) % (2 ** out))
+    return f
+
+
+def spec_plus_one_be(n, out):
+    def f(xs, rs, st):
+        yield ('(x+1) mod 2^out', val_le(rs[::-1]) == (val_le(xs[::-1]) + 1) % (2 ** out))
+    return f
+
+
+def spec_ite(xs, rs, st):
+    yield ('ite', rs[0] == z3.If(xs[0], xs[1], xs[2]))
+
+
+def spec_pxor(n):
+    def f(xs, rs, st):
+        yield ('pointwise', z3.And([rs[i] == z3.Xor(xs[i], xs[n + i]) for i in range(n)]))
+    return f
+
+
+def spec_pite(n):
+    def f(xs, rs, st):
+        yield ('pointwise', z3.And([rs[i] == z3.If(xs[i], xs[n + i], xs[2 * n + i]) for i in range(n)]))
+    return f
+
+
+class Single(HostGadget):
+    """generators returning a single label (or labels + flag)"""
+
+    def result_labels(self, it, result):
+        if isinstance(result, tuple) and len(result) == 2 and not isinstance(result[1], (tuple, VList)):
+            return [[it.label_term(x) for x in it.iterate(result[0])], it.label_term(result[1])]
+        if isinstance(result, (tuple, VList)):
+            return HostGadget.result_labels(self, it, result)
+        return [it.label_term(result)]
+
+
+def contracts(quick):
+    cs = [HostGadget(SUB, 'add_sub2', 2, spec_sub2, max_new=2), HostGadget(SUB, 'add_sub3', 3, spec_sub3, max_new=5)]
+    W = 3
+    for n in range(1, W + 1):
+        for m in range(1, W + 1):
+            for be in (False, True):
+                if be and (n, m) not in ((2, 2), (3, 2), (2, 3)):
+                    continue
+                tag = f'{n}x{m}/{"be" if be else "le"}'
+                cs.append(HostGadget(SUB, 'add_sub_two_numbers', n + m, spec_sub(n, m, be), label='add_sub_two_numbers/' + tag, shape=(n, m), kwargs={'big_endian': be}))
+                cs.append(Single(SUB, 'add_subtract_with_compare', n + m, spec_subcmp(n, m, be), label='add_subtract_with_compare/' + tag, shape=(n, m), kwargs={'big_endian': be}))
+    for n in (1, 2, 3):
+        for num in range(-2, 2 ** n + 2):
+            cs.append(Single(EQ, 'add_equal', n, spec_equal(n, num), label=f'add_equal/n{n}/num{num}', arg_builder=lambda sx, num=num: [VList(sx), num]))
+    for n in (1, 2):
+        for ao in (False, True):
+            cs.append(HostGadget(GEN, 'add_plus_one', n, spec_plus_one(n, n + 1), label=f'add_plus_one/in{n}/default-out/add_outputs={ao}',
+                                 arg_builder=lambda sx: [VList(sx)], kwargs={'add_outputs': ao}, expect_outputs_unchanged=not ao, inputs_positional=False))
+        cs.append(HostGadget(GEN, 'add_plus_one', n, spec_plus_one_be(n, n + 1), label=f'add_plus_one/in{n}/default-out/big-endian',
+                             arg_builder=lambda sx: [VList(sx)], kwargs={'big_endian': True}, inputs_positional=False))
+    cs.append(Single(GEN, 'add_if_then_else', 3, spec_ite, arg_builder=lambda sx: list(sx)))
+    for n in (1, 2, 3):
+        cs.append(HostGadget(GEN, 'add_pairwise_xor', 2 * n, spec_pxor(n), label=f'add_pairwise_xor/n{n}', shape=(n, n)))
+    for n in (1, 2):
+        cs.append(HostGadget(GEN, 'add_pairwise_if_then_else', 3 * n, spec_pite(n), label=f'add_pairwise_if_then_else/n{n}', shape=(n, n, n)))
+    return cs
 
 
 def run(rep):
     quick = env.TIER != 'thorough'
-    rep.trusted_base = list(STD_TRUSTED)
+    rep.trusted_base = list(STD_TRUSTED) + ['abstract circuit model vlib/pyvc/circuit_model.py']
+    for a in STD_ASSUME:
+        rep.assume(a)
+    rep.assume('width-bounded P: ripple subtractors / plus-one / equality are proved per width (<=3) for all operand values, hosts and aliasing; larger widths, div-mod and sqrt are bounded-only')
+    rep.assume('assumed contract: Circuit.order_inputs/order_outputs permute the list and change nothing else (bodies exercised by the bounded layer)')
+    it = new_interp()
+    pv = Prover(rep, it, 'C09')
+    for c in contracts(quick):
+        pv.run_contract(c)
+    a, b = z3.Bools('a b')
+    canary(rep, pv, 'C09/canary/borrow-is-gt', [], b2i(z3.Xor(a, b)) - 2 * b2i(z3.And(a, z3.Not(b))) == b2i(a) - b2i(b))
+    refuted = pv.discharge(env.NPROC)
+    finish_refuted(rep, pv, refuted)
     run_bounded(rep, 'C09', quick)
-    rep.extra['explanation'] = 'bounded stand-in only in this build'
+    rep.extra['explanation'] = 'Gadgets and width-bounded ripple structures proved on an abstract host circuit from the real source; div-mod/sqrt and larger widths: bounded stand-in.'
